@@ -191,7 +191,49 @@ fn specials() -> Vec<f64> {
     ]
 }
 
-fn gen_ctor(_rng: &mut Rng, _thorough: bool, out: &mut Vec<String>) {
+/// Tail mass of the truncated discrete Laplace at truncation point `n` (closed form of equation (11)), in plain f64:
+/// only used by the GENERATOR to look for parameters near the cap of the search; the verdict never depends on it.
+fn gen_tail(n: u32, sens: u32, eps: f64) -> f64 {
+    let r = (-eps).exp();
+    let rn1 = r.powi((n + 1) as i32);
+    (r.powi((n - sens + 1) as i32) - rn1) / (1.0 + r - 2.0 * rn1)
+}
+
+/// the ε at which the smallest admissible truncation point for (δ, Δ) crosses `n` (bisection on the closed form)
+fn gen_eps_at(n: u32, delta: f64, sens: u32) -> f64 {
+    let (mut lo, mut hi) = (1e-9f64, 1.0f64); // tail(lo) > δ > tail(hi)
+    for _ in 0..200 {
+        let mid = (lo * hi).sqrt();
+        if gen_tail(n, sens, mid) > delta { lo = mid } else { hi = mid }
+    }
+    hi
+}
+
+/// Valid-looking parameter sets whose required truncation point lies beyond / just below / just above the cap of
+/// `find_smallest_n` (MAX_SHIFT = 1_000_000): beyond it the constructor must refuse (`BadShiftValue`) — a distribution
+/// truncated AT the cap would have tail mass above δ; below it the search runs through ~10^6 candidates and accepts.
+fn gen_cap(thorough: bool, out: &mut Vec<String>) {
+    const CAP: u32 = 1_000_000;
+    // needs n ≈ 1.8M
+    out.push(oprf_req(1e-6, 1e-7, 1));
+    out.push(oprf_req(1e-6, 1e-6, 10));
+    // (as ε -> 0 the tail mass at the cap tends to Δ/(2·cap+1): only δ below that can need a truncation point beyond the cap)
+    let pairs: &[(f64, u32)] = if thorough { &[(1e-7, 1), (1e-8, 2), (1e-9, 1), (4e-7, 1), (1e-7, 3), (1e-6, 10)] } else { &[(1e-7, 1), (1e-8, 2)] };
+    let margins: &[f64] = if thorough { &[1e-5, 1e-4, 1e-3, 1e-2, 0.3] } else { &[1e-3] };
+    for &(delta, sens) in pairs {
+        if gen_tail(CAP, sens, 1e-9) <= delta {
+            continue;
+        }
+        let e0 = gen_eps_at(CAP, delta, sens);
+        for &m in margins {
+            out.push(oprf_req(e0 * (1.0 - m), delta, sens)); // smaller ε: n beyond the cap
+            out.push(oprf_req(e0 * (1.0 + m), delta, sens)); // larger ε: n just below the cap
+        }
+    }
+}
+
+fn gen_ctor(_rng: &mut Rng, thorough: bool, out: &mut Vec<String>) {
+    gen_cap(thorough, out);
     let sp = specials();
     // OPRFPaddingDp::new: every special value in each float slot, the others nominal
     for &x in &sp {
